@@ -139,6 +139,55 @@ def run_shard(ctx, shard):
             ctx.sample(case)
 
 
+def concurrent_leg(run, binary, nproc):
+    """the entry points must also agree while several threads convert different documents at once"""
+    import os
+    import subprocess
+    import c07
+    from vlib import WORK, Driver
+    docs = ['+-+\n', 'ab\n', '-->\n', '()\n', '.-.\n| |\n\'-\'\n', '{a}\n']
+    keys = []
+    for d in docs:
+        for entry in (0, 1, 3):
+            keys.append((entry, d, 'white', 'black', 8.0))
+    os.makedirs(WORK, exist_ok=True)
+    cpath = os.path.join(WORK, 'c18-corpus.bin')
+    c07.write_corpus(cpath, keys)
+    drv = Driver(binary)
+    want = [drv.conv(d, entry=1).out.encode() for (e, d, _, _, _) in keys]
+    drv.close()
+    env = dict(os.environ)
+    env.pop('RUST_BACKTRACE', None)
+    procs = []
+    for k in range(nproc):
+        out = os.path.join(WORK, 'c18-race-%d.bin' % k)
+        procs.append((out, subprocess.Popen([binary, 'race', str((8, 16)[k % 2]), cpath, out, '400'], env=env, stdout=subprocess.DEVNULL, stderr=subprocess.PIPE)))
+    n = 0
+    for out, p in procs:
+        try:
+            p.communicate(timeout=900)
+        except subprocess.TimeoutExpired:
+            p.kill()
+            run.inconclusive['race process watchdog'] += 1
+            continue
+        if p.returncode != 0 or not os.path.exists(out):
+            run.violations.append({'case': {'concurrent': 'entry points'}, 'signature': None, 'message': 'the process converting concurrently died with status %s' % p.returncode})
+            run.nviol += 1
+            continue
+        res, _ = c07.read_race(out)
+        os.unlink(out)
+        for (t, i, st, body) in res:
+            n += 1
+            if st != 0 or body != want[i]:
+                run.violations.append({'case': {'input': keys[i][1], 'settings': {}, 'concurrent_entry': keys[i][0]}, 'signature': None,
+                                       'message': 'entry point %d returned a document that differs from to_svg_string_pretty of the same text while other threads were converting other texts' % keys[i][0]})
+                run.nviol += 1
+                if run.nviol > 10:
+                    break
+    run.evals += n
+    run.tags['concurrent_observations'] += n
+
+
 def execute(run):
     binary = build_driver()
     info = driver_info(binary)
@@ -146,6 +195,7 @@ def execute(run):
     n = 250 if run.tier == 'quick' else 1200
     k = 16 if run.tier == 'quick' else 32
     run.run_shards(binary, [{'name': 's-%d' % i, 'n': n} for i in range(k)], extra=extra)
+    concurrent_leg(run, binary, 4 if run.tier == 'quick' else 16)
 
 
 if __name__ == '__main__':
